@@ -64,6 +64,14 @@ func coinbaseBlock(prev *wire.BlockHeader, height int32, bits uint32, ts int64, 
 	return blk
 }
 
+func cpHeights(cps []chaincfg.Checkpoint) []int32 {
+	var out []int32
+	for _, c := range cps {
+		out = append(out, c.Height)
+	}
+	return out
+}
+
 func e2eFamily(c *mon.Ctx) {
 	c.Family("e2e", tierN(c, 60, 3000), func(k *mon.Case) {
 		r := k.Rand
@@ -90,6 +98,7 @@ func e2eFamily(c *mon.Ctx) {
 		desc := map[string]any{"interval": n, "spacing": rp.TargetSpacing, "minDiff": rp.AllowMinDiff, "bip94": rp.BIP94, "steps": steps}
 		var log []string
 		var paceSig []int
+		var accepted []*wire.MsgBlock
 		pace := 0
 		for s := 1; s <= steps; s++ {
 			tip := hs[len(hs)-1]
@@ -185,6 +194,7 @@ func e2eFamily(c *mon.Ctx) {
 			k.Count("e2e.path."+path, 1)
 			hs = append(hs, refpow.Header{Height: height, Time: ts, Bits: want})
 			prev = blk.Header
+			accepted = append(accepted, blk)
 			// (4) the published best state
 			bs := chain.BestSnapshot()
 			if int64(bs.Height) != height || bs.Bits != want {
@@ -195,12 +205,72 @@ func e2eFamily(c *mon.Ctx) {
 			}
 		}
 		k.Count("e2e.chains", 1)
+		// (5) the same blocks delivered to a fresh node that knows the first block of a difficulty period as a checkpoint.
+		// btcd bounds the difficulty of later blocks by the easiest value reachable in the time since the checkpoint (a
+		// factor 4 per started maximum-adjustment timespan). With the checkpoint at the start of a period and block times
+		// that never step back afterwards the retarget rule cannot ease faster than that, so the required bits must pass;
+		// other placements / time orders are replayed too but a refusal is only counted there, never judged (the estimate
+		// is a heuristic outside those conditions, and refusing blocks older than the checkpoint is deliberate).
+		if int64(len(accepted)) > n+1 {
+			var cps []chaincfg.Checkpoint
+			var cpBlocks []*wire.MsgBlock
+			for h := n; h < int64(len(accepted)); h += n {
+				if len(cps) == 0 || r.Bool() {
+					hash := accepted[h-1].Header.BlockHash()
+					cps = append(cps, chaincfg.Checkpoint{Height: int32(h), Hash: &hash})
+					cpBlocks = append(cpBlocks, accepted[h-1])
+					if len(cps) == 2 {
+						break
+					}
+				}
+			}
+			// judged only from the first checkpoint on when time never steps back after it and moves past it
+			first := int(cps[0].Height)
+			judged := true
+			for i := first; i < len(accepted); i++ {
+				t, pt := accepted[i].Header.Timestamp.Unix(), accepted[i-1].Header.Timestamp.Unix()
+				if t < pt || t <= accepted[first-1].Header.Timestamp.Unix() {
+					judged = false
+				}
+			}
+			dir2 := dir + "-cp"
+			os.RemoveAll(dir2)
+			defer os.RemoveAll(dir2)
+			db2, err := database.Create("ffldb", dir2, p.Net)
+			if err != nil {
+				panic(err)
+			}
+			defer db2.Close()
+			chain2, err := blockchain.New(&blockchain.Config{DB: db2, ChainParams: &p, TimeSource: &fixedTime{now}, Checkpoints: cps})
+			if err != nil {
+				panic(err)
+			}
+			for i, blk := range accepted {
+				main, orphan, err := chain2.ProcessBlock(btcutil.NewBlock(blk), blockchain.BFNone)
+				if err == nil && main && !orphan {
+					continue
+				}
+				if code, isRule := ruleCode(err); judged && isRule && code == blockchain.ErrDifficultyTooLow {
+					k.Failf("e2e:checkpointed-node-refuses-required-difficulty", "checkpoints at heights %v (period starts; block times never step back afterwards): block %d with the protocol-required bits %08x: %v",
+						cpHeights(cps), i+1, blk.Header.Bits, err)
+				} else {
+					k.Count("e2e.checkpoint-replay.refusal-not-judged", 1)
+				}
+				break
+			}
+			if judged {
+				k.Count("e2e.chains-replayed-with-checkpoints.judged", 1)
+			}
+			k.Count("e2e.chains-replayed-with-checkpoints", 1)
+			_ = cpBlocks
+		}
 		k.Eval(mon.Sig("e2e", n, rp.TargetSpacing, rp.AllowMinDiff, rp.BIP94, fmt.Sprint(paceSig)), true)
 		if k.Index < 2 {
 			k.Sample(map[string]any{"family": "e2e", "interval": n, "minDiff": rp.AllowMinDiff, "bip94": rp.BIP94, "blocks": log})
 		}
 	})
 	c.Require("e2e.chains", 20)
+	c.Require("e2e.chains-replayed-with-checkpoints.judged", 10)
 	c.Require("e2e.calcnext", 500)
 	c.Require("e2e.reject", 100)
 	c.Require("e2e.path.retarget", 50)
